@@ -43,6 +43,62 @@ fn tokens_match(tokens: &[Token], pattern_tokens: &[Token]) -> bool {
     true
 }
 
+/// The replacement of a compound match is rebuilt by joining tokens with one separator (or none), so
+/// the text outside the matched words survives only if the original identifier has exactly that
+/// separator between every two neighbouring words that are not both inside one matched window, nothing
+/// in front of the first word and at most one trailing delimiter. Otherwise (`my__foo_bar_x`,
+/// `foo_bar_x__`, `___foo_bar_x`, `myFooBar_`) the identifier is left to the exact matcher, which
+/// replaces the term in place. Identifiers mixing `_` and `-` keep the "dominant separator" join.
+fn untouched_text_survives_rejoin(
+    identifier_without_prefix: &str,
+    tokens: &[Token],
+    matched_windows: &[(usize, usize)],
+    style: Style,
+) -> bool {
+    let has_underscore = identifier_without_prefix.contains('_');
+    let has_hyphen = identifier_without_prefix.contains('-');
+    let separator = if has_underscore && has_hyphen {
+        return true;
+    } else if has_hyphen {
+        "-"
+    } else if has_underscore {
+        "_"
+    } else if identifier_without_prefix.contains('.') {
+        "."
+    } else if identifier_without_prefix.contains(' ') {
+        " "
+    } else if matches!(style, Style::Pascal | Style::Camel) {
+        ""
+    } else {
+        return true;
+    };
+
+    // Tokens are the maximal alphanumeric pieces in order, so each one starts at the next
+    // alphanumeric byte after the previous one.
+    let bytes = identifier_without_prefix.as_bytes();
+    let mut cursor = 0;
+    for (index, token) in tokens.iter().enumerate() {
+        let gap_start = cursor;
+        while cursor < bytes.len() && !bytes[cursor].is_ascii_alphanumeric() {
+            cursor += 1;
+        }
+        let gap = &identifier_without_prefix[gap_start..cursor];
+        let inside_window = matched_windows
+            .iter()
+            .any(|(start, end)| *start < index && index < *end);
+        if index == 0 {
+            if !gap.is_empty() {
+                return false;
+            }
+        } else if !inside_window && gap != separator {
+            return false;
+        }
+        cursor += token.text.len();
+    }
+    let tail = identifier_without_prefix.get(cursor..).unwrap_or("");
+    tail.is_empty() || tail == "_" || tail == "-" || tail == "."
+}
+
 /// Find compound words that contain the pattern and generate replacements
 #[allow(clippy::too_many_lines, clippy::cognitive_complexity)]
 pub fn find_compound_variants(
@@ -135,6 +191,9 @@ pub fn find_compound_variants(
     let mut replacement_ranges = Vec::new(); // Track (start, end) of replacements
     let mut replacements_made = 0;
     let mut pos = 0;
+    // Windows of the ORIGINAL token list that were replaced, as (start, end) token indices
+    let mut matched_windows: Vec<(usize, usize)> = Vec::new();
+    let mut original_pos = 0;
 
     // Guard against empty pattern_len or empty replacement_tokens
     if pattern_len == 0 || replacement_tokens.is_empty() {
@@ -337,8 +396,11 @@ pub fn find_compound_variants(
 
             // Move position forward by the length of the replacement
             pos += new_tokens_styled.len();
+            matched_windows.push((original_pos, original_pos + pattern_len));
+            original_pos += pattern_len;
         } else {
             pos += 1;
+            original_pos += 1;
         }
     }
 
@@ -396,7 +458,14 @@ pub fn find_compound_variants(
 
             // Identifier detected with style and replacements made
             // Check if this style is in our target styles
-            if styles.contains(&style) {
+            if styles.contains(&style)
+                && untouched_text_survives_rejoin(
+                    identifier_without_prefix,
+                    &identifier_tokens.tokens,
+                    &matched_windows,
+                    style,
+                )
+            {
                 // Join tokens appropriately based on the original identifier's style
                 // For mixed separator identifiers like "foo_bar_baz_qux-specific",
                 // we need to preserve the original separator pattern
